@@ -17,11 +17,11 @@
 (*                               []byte -> base64, omitempty (nil and empty  *)
 (*                               are left out: the same semantic value)      *)
 (*   chainID                     string(bytes) -> JSON string: encoding/json *)
-(*                               replaces every byte that is not part of a   *)
-(*                               valid UTF-8 sequence by U+FFFD              *)
+(*                               writes the escape \ufffd for every byte     *)
+(*                               that is not part of a valid UTF-8 sequence  *)
 (* Sign(tx) is the record of the per-field encodings (JSON object members   *)
 (* carry their names, so fields cannot run into each other).  The UTF-8      *)
-(* decoder below follows unicode/utf8 (Go): one U+FFFD per offending byte.   *)
+(* decoder below follows unicode/utf8 (Go): one escape per offending byte.    *)
 (*                                                                          *)
 (* Named deviation "chainIDUtf8" (code as it is): a chain ID that is not     *)
 (* valid UTF-8 is signed in its sanitised form, so different chain IDs can   *)
@@ -74,7 +74,8 @@ Dec(s) ==
             /\ (IF b1 = 240 THEN b2 >= 144 /\ b2 <= 191 ELSE IF b1 = 244 THEN b2 >= 128 /\ b2 <= 143 ELSE Cont(b2))
             /\ Cont(b3) /\ Cont(b4)
          THEN [n |-> 4, cp |-> (b1 - 240) * 262144 + (b2 - 128) * 4096 + (b3 - 128) * 64 + (b4 - 128), ok |-> TRUE]
-    ELSE [n |-> 1, cp |-> 65533, ok |-> FALSE]          \* not UTF-8: one replacement character per byte
+    ELSE [n |-> 1, cp |-> -1, ok |-> FALSE]             \* not UTF-8: encoding/json writes the escape \ufffd for the byte
+                                                        \* (a genuine U+FFFD, EF BF BD, is copied as it is: cp 65533)
 
 RECURSIVE Runes(_)
 Runes(s) == IF s = <<>> THEN <<>> ELSE LET d == Dec(s) IN <<d.cp>> \o Runes(SubSeq(s, d.n + 1, Len(s)))
